@@ -230,6 +230,19 @@ def cli_part(chk):
         expect("abandoned after 1 of 3 invocations", ["-D", "c.yaml"], 1, script={"by_key": {"Ba:2": {"rc": 0, "out": "garbage\n"}}})
         expect("output with braces and a failure", ["-D", "c.yaml"], 1, script={"by_key": {"Ba": {"rc": 2, "out": "{x} {0} }{ {ind}\n"}}})
         expect("unparsable output with braces", ["-D", "c.yaml"], 1, script={"by_key": {"Bb": {"rc": 0, "out": "{'a': 1} {ind}{ind}\n"}}})
+        # output that is not UTF-8: in a failing run (printed), in an unparsable one, in a criterion of a successful run (recorded),
+        # in the output of a failing build (printed and logged)
+        bad = "ff fe 7b c3 28 0a".replace(" ", "")
+        expect("failing run with output that is not UTF-8", ["-D", "c.yaml"], 1, script={"by_key": {"Ba": {"rc": 2, "out": "x\n", "out_hex": bad}}})
+        expect("unparsable output that is not UTF-8", ["-D", "c.yaml"], 1, script={"by_key": {"Bb": {"rc": 0, "out": "", "out_hex": bad}}})
+        expect("criterion that is not UTF-8", ["-D", "c.yaml"], 0,
+               script={"by_key": {"Ba": {"rc": 0, "out": "", "out_hex": ("Ba: cr".encode() + b"\xff\xe9" + ": 5ms\nBa: iterations=1 runtime: 7ms\n".encode()).hex()}}})
+        expect("session after a criterion that is not UTF-8 was recorded", ["-D", "c.yaml"], 0, fresh=False, no_start=True)
+        nonutf_build = cli_config(d, ["Ba"], execs={"E": {"executable": core.PY, "args": "-S " + os.path.join(d, "harness.py")},
+                                                    "F": {"executable": core.PY, "args": "-S " + os.path.join(d, "harness.py"), "path": d,
+                                                          "build": ["printf 'caf\\351 \\377\\n'; printf '\\303\\050' >&2; exit 1"]}})
+        expect("failing build with output that is not UTF-8", ["-D", "c.yaml"], 1, raw=nonutf_build, script={})
+        cli.write_yaml(os.path.join(d, "c.yaml"), ok3)
         # numerals of the documented grammar beyond the range of floats: the values are inf, the mean inf or nan - still a report
         expect("a runtime beyond the range of floats", ["-D", "c.yaml"], 0,
                script={"by_key": {"Ba": {"rc": 0, "out": "Ba: iterations=1 runtime: 1e999us\n"}, "Bb:2": {"rc": 0, "out": "Bb: iterations=1 runtime: 9e400ms\n"}}})
